@@ -103,7 +103,7 @@ pub fn main(args: &[String]) {
             Err(m) => {
                 rep.case(src.as_bytes(), true);
                 let (what, detail) = match m.split_once("\n--- layout A:") { Some((w, d)) => (w.to_string(), d.to_string()), None => (m.clone(), String::new()) };
-                if what.contains("with an unbounded memo table]") { rep.known("eviction-dependent-result", &what, &detail, ""); } else { rep.violation(&what, &detail, ""); }
+                if what.contains("with an unbounded memo table]") && std::env::var("SVH_MEMO_INVENTORY_CHANGED").is_err() { rep.known("eviction-dependent-result", &what, &detail, ""); } else { rep.violation(&what, &detail, ""); }
             }
         }
     }
